@@ -194,9 +194,9 @@ def collect(harnesses, out, data):
     for h in harnesses:
         t = terse.get(h["full"], {})
         j = jd.get(h["full"], {})
-        pd = j.get("property_details", {})
-        ed = j.get("error_details", {})
-        st = j.get("cbmc", {})
+        pd = j.get("property_details") or {}
+        ed = j.get("error_details") or {}
+        st = j.get("cbmc") or {}
         text = "\n".join(t.get("text", []))
         m = re.search(r"Verification Time: ([\d.]+)s", text)
         vt = float(m.group(1)) if m else None
